@@ -23,6 +23,7 @@ type refTables struct {
 	b2uWF, u2bWF, isASCII bool
 	hdrB, hdrU            bool // the first line of the file is NOT a data row (the loader drops line 1 whatever it is)
 	dropB, dropU          int  // rows by content that are not rows by the loader's rule (exactly two ' '-fields)
+	dupB, dupU            []string // keys that occur in more than one row (from the LIST of rows, not from the maps)
 }
 
 // lastDropped: rows by content of the file parsed last that the loader's accept rule skips.
@@ -104,6 +105,18 @@ func buildRef(rb, ru [][2]uint16, ascii bool) *refTables {
 	a1, a2 := ascii, true
 	t := &refTables{b2u: map[uint16]rune{}, u2b: map[rune]uint16{}, b2uRows: len(rb), u2bRows: len(ru),
 		b2uWF: true, u2bWF: true, isASCII: a1 && a2}
+	// every row is specification: the file must be a FUNCTION of its key column. Count occurrences over the row list.
+	nb, nu := map[uint16]int{}, map[uint16]int{}
+	for _, r := range rb {
+		if nb[r[0]]++; nb[r[0]] == 2 {
+			t.dupB = append(t.dupB, fmt.Sprintf("0x%04X", r[0]))
+		}
+	}
+	for _, r := range ru {
+		if nu[r[1]]++; nu[r[1]] == 2 {
+			t.dupU = append(t.dupU, fmt.Sprintf("0x%04X", r[1]))
+		}
+	}
 	for _, r := range rb {
 		t.b2u[r[0]] = rune(r[1])
 		if r[0] < 0x8000 || r[1] < 0x80 || (r[1] >= 0xD800 && r[1] <= 0xDFFF) {
@@ -259,6 +272,9 @@ func judgeT(t *refTables, i int, line, out string) {
 	}
 	switch op {
 	case "wf":
+		if len(t.dupB) > 0 || len(t.dupU) > 0 {
+			run.Fail(i, "table:duplicate-key", fmt.Sprintf("a table file has a key in more than one row (the loader's map is last-wins: the earlier row is lost, and the key that was meant is missing): b2u Big5 codes %v, u2b code points %v: %s", t.dupB, t.dupU, out))
+		}
 		if t.dropB > 0 || t.dropU > 0 {
 			run.Fail(i, "table:row-dropped", fmt.Sprintf("%d + %d lines of the table files are rows by content (0xHHHH 0xHHHH …) but not by the loader's rule (exactly two ' '-fields): silently missing from the maps: %s", t.dropB, t.dropU, out))
 		}
